@@ -273,6 +273,58 @@ static void av_case(uint64_t idx, void *ctx)
     mc_nontrivial();
     mc_outcome(mc_hash(EXP, sizeof(ev_t) * (size_t) (NEXP < 8 ? NEXP : 8)) + (uint64_t) NEXP);
 }
+/* ---- the file is found through a search path, in a directory that is not the current one, and includes a file by a relative name
+ * (the parser works from the directory of the file it found and returns to where it was); and the name in the magic line follows
+ * the program name as it is when a file is opened */
+static void sp_desc(uint64_t idx, void *ctx, char *b, size_t n)
+{
+    (void) ctx;
+    if (idx < 4) snprintf(b, n, "spifconf_parse(\"main.cfg\", %s, %s) with main.cfg = [begin A] [%%include rel.cfg] [t1] [end] in a directory other than the current one", idx & 1 ? "dir" : "NULL", idx & 2 ? "\"/nonexistent:dir\"" : "\"dir\"");
+    else snprintf(b, n, "parse a file with the magic of the program name, rename the program, parse a file with the new magic%s", idx == 5 ? " from an %include" : "");
+}
+static void sp_case(uint64_t idx, void *ctx)
+{
+    (void) ctx;
+    char dir[300], path[700], data[600], cwd0[PATH_MAX], cwd1[PATH_MAX];
+    snprintf(dir, sizeof dir, "%s/sp-%d", scratch(), (int) getpid()); mkdir(dir, 0700);
+    setup();
+    if (idx < 4) {
+        const char *shape = "file found through a search path"; mc_set_shape(shape);
+        snprintf(path, sizeof path, "%s/main.cfg", dir); snprintf(data, sizeof data, "<verif-1.0>\nbegin A\n%%include rel.cfg\nt1\nend\n"); write_file(path, data, strlen(data));
+        snprintf(path, sizeof path, "%s/rel.cfg", dir); snprintf(data, sizeof data, "<verif-1.0>\n  t2 two  \n"); write_file(path, data, strlen(data));
+        m_line(L_BEGIN_A); m_line(L_T2); m_line(L_T1); m_line(L_END);
+        char plist[700]; snprintf(plist, sizeof plist, "%s%s", idx & 2 ? "/nonexistent/verif:" : "", dir);
+        if (!getcwd(cwd0, sizeof cwd0)) cwd0[0] = 0;
+        g_env_on = 1; g_ledger_on = 1; g_allow_fork = 0;
+        spif_charptr_t r = (idx & 1) ? spifconf_parse((spif_charptr_t) "main.cfg", (spif_charptr_t) dir, (spif_charptr_t) "/nonexistent/verif") : spifconf_parse((spif_charptr_t) "main.cfg", NULL, (spif_charptr_t) plist);
+        g_env_on = 0; g_ledger_on = 0; g_allow_fork = 1;
+        if (!getcwd(cwd1, sizeof cwd1)) cwd1[0] = 0;
+        if (!r) FAIL("spifconf_parse", "model:return", shape, "returned NULL for a file that is in the search path"); else FREE(r);
+        if (strcmp(cwd0, cwd1)) { FAIL("spifconf_parse", "model:cwd-not-restored", shape, "the current directory is %s after parsing, it was %s", cwd1, cwd0); if (chdir(cwd0)) {} }
+        compare_and_finish(shape, DEPTH);
+    } else {
+        const char *shape = "program renamed between two parses"; mc_set_shape(shape);
+        snprintf(path, sizeof path, "%s/one.cfg", dir); snprintf(data, sizeof data, "<verif-1.0>\nbegin A\nt1\nend\n"); write_file(path, data, strlen(data));
+        char two[700], three[700]; snprintf(two, sizeof two, "%s/two.cfg", dir); snprintf(three, sizeof three, "%s/three.cfg", dir);
+        snprintf(data, sizeof data, "<other-1.0>\n  t2 two  \n"); write_file(three, data, strlen(data));
+        if (idx == 5) snprintf(data, sizeof data, "<other-1.0>\nbegin B\n%%include %s\nend\n", three); else snprintf(data, sizeof data, "<other-1.0>\nbegin B\n  t2 two  \nend\n");
+        write_file(two, data, strlen(data));
+        m_line(L_BEGIN_A); m_line(L_T1); m_line(L_END); m_line(L_BEGIN_B); m_line(L_T2); m_line(L_END);
+        g_env_on = 1; g_ledger_on = 1; g_allow_fork = 0;
+        spif_charptr_t r1 = spifconf_parse((spif_charptr_t) path, NULL, NULL);
+        libast_set_program_name("other");
+        spif_charptr_t r2 = spifconf_parse((spif_charptr_t) two, NULL, NULL);
+        spif_charptr_t r3 = spifconf_parse((spif_charptr_t) path, NULL, NULL);          /* the old magic no longer names this program */
+        libast_set_program_name("verif");
+        g_env_on = 0; g_ledger_on = 0; g_allow_fork = 1;
+        if (!r1) FAIL("spifconf_parse", "model:return", shape, "the first file was refused"); else FREE(r1);
+        if (!r2) FAIL("spifconf_parse", "model:return", shape, "a file with the magic of the current program name was refused"); else FREE(r2);
+        if (r3) { FAIL("spifconf_parse", "model:return", shape, "a file with the magic of the former program name was accepted"); FREE(r3); }
+        compare_and_finish(shape, DEPTH);
+    }
+    mc_nontrivial();
+    mc_outcome(idx);
+}
 int main(int argc, char **argv)
 {
     mc_init("C09", argc, argv);
@@ -283,6 +335,7 @@ int main(int argc, char **argv)
     mc_e2_level("depth", 255, 255 * 2, d_case, d_desc, NULL);
     mc_e2_level("include_chain", 30, 30, i_case, i_desc, NULL);
     mc_e2_level("long_lines", 61447, 60, ll_case, ll_desc, NULL);
+    mc_e2_level("search_path_and_name", 1, 6, sp_case, sp_desc, NULL);
     for (g_n = 1; g_n <= 2; g_n++) mc_e2_level("argv_lines", g_n, mc_words_of_len(NAV, g_n), av_case, av_desc, NULL);
     for (g_n = 0; g_n <= N; g_n++) if (!mc_e2_level("files", g_n, mc_words_of_len(NKIND, g_n) * 2, f_case, f_desc, NULL)) break;
     return mc_finish();
